@@ -273,10 +273,20 @@ Section AbsKernels.
     flexc_rel k c c' -> absin_rel k i i' -> asz_rel L m m' -> absout_rel k (flex_place c i m) (flex_place c' i' m').
   Proof.
     intros Hc Hi Hm. pose proof (rel_flex_final_size c c' i i' m m' Hc Hi Hm) as [Hfw Hfh].
-    flexc_hyps Hc. absin_hyps Hi. unfold flex_place, absout_rel.
-    rewrite Edir, Erow, Ewr, Ejc, Eai, Eas.
-    destruct (fc_is_row c) eqn:Er; cbv beta iota zeta; cbn [o_location o_size o_margin].
-    all: destruct (fd_is_row (fc_dir c)) eqn:Ed.
+    (* make the equal enum / flag fields of the two runs the same variables (cheaper than rewriting in the unfolded goal) *)
+    destruct c as [cs cb cg ci dir row wr jc ai0], c' as [cs' cb' cg' ci' dir' row' wr' jc' ai0'].
+    destruct i as [ar mg ins pd bd pb sz mn mx als jus pos], i' as [ar' mg' ins' pd' bd' pb' sz' mn' mx' als' jus' pos'].
+    unfold flexc_rel, absin_rel in Hc, Hi.
+    cbn [fc_container_size fc_border fc_scrollbar_gutter fc_content_box_inset fc_dir fc_is_row fc_is_wrap_reverse
+         fc_justify_content fc_align_items ai_aspect_ratio ai_margin ai_inset ai_padding ai_border ai_pb_sum ai_size ai_min0
+         ai_max ai_align_self ai_justify_self ai_position] in Hc, Hi.
+    flexc_hyps Hc. absin_hyps Hi. subst dir' row' wr' jc' ai0' als' jus' pos'.
+    unfold flex_place, absout_rel.
+    cbn [fc_container_size fc_border fc_scrollbar_gutter fc_content_box_inset fc_dir fc_is_row fc_is_wrap_reverse
+         fc_justify_content fc_align_items ai_aspect_ratio ai_margin ai_inset ai_padding ai_border ai_pb_sum ai_size ai_min0
+         ai_max ai_align_self ai_justify_self ai_position].
+    destruct row; cbv beta iota zeta; cbn [o_location o_size o_margin].
+    all: destruct (fd_is_row dir) eqn:Ed.
     all: unfold_alifts; rewrite ?Ed.
     all: ahm k Hk.
   Qed.
